@@ -180,6 +180,7 @@ class Program:
         self.decls = facts["decls"]                # usr -> header
         self.classes = facts["classes"]            # qn -> class
         self.globals = facts["globals"]
+        self.enums = facts.get("enums", {})        # qn -> enum definition
         self.tus = facts["tus"]
         self._index()
 
